@@ -122,12 +122,20 @@ def volume_model_cases(ctx, n):
             kw['mu_r'] = prop()
         if has_eps:
             kw['epsilon_r'] = prop()
+        kw0 = {k: (np.array(v, copy=True) if isinstance(v, np.ndarray) else v) for k, v in kw.items()}
         model = emg3d.Model(grid, **kw)
+        # the model has been USED before (a Laplace- and a frequency-domain VolumeModel at other
+        # parameters, as in an s-/frequency sweep): the coefficients of the next use must not
+        # depend on that, and building a VolumeModel must leave the model unchanged
+        for fpre in (-2.0**27, 2.0**23):
+            emg3d.models.VolumeModel(model, emg3d.Field(grid, frequency=fpre))
         sfield = emg3d.Field(grid, frequency=freq)
         vm = emg3d.models.VolumeModel(model, sfield)
+        changed = [k for k in kw0 if isinstance(kw0[k], np.ndarray)
+                   and not np.array_equal(getattr(model, k), kw0[k])]
         vol = np.multiply.outer(np.multiply.outer(hs[0], hs[1]), hs[2])
         cases.append(dict(shape=shape, case=casek, has_mu=has_mu, has_eps=has_eps,
-                          freq=freq, kw=kw, vm=vm, vol=vol, sfield=sfield))
+                          freq=freq, kw=kw0, vm=vm, vol=vol, sfield=sfield, changed=changed))
     return cases
 
 
@@ -167,6 +175,10 @@ def check_volume_model(ctx, n, dis):
             continue
         vals = V.parse_cpairs(V.eval_answers(out)[0])
         vm = c['vm']
+        if c.get('changed'):
+            dis.append({'what': 'building VolumeModels changed the Model: ' + ', '.join(c['changed']),
+                        'case': dict(shape=c['shape'], aniso=c['case'], has_mu=c['has_mu'],
+                                     has_eps=c['has_eps'], freq=c['freq'])})
         k = 0
         ok = True
         for idx in itertools.product(*[range(m) for m in c['shape']]):
